@@ -759,6 +759,102 @@ def sig_of(case, out, why):
     return {"op": case.split()[0], "kind": why.split(":")[0]}
 
 
+
+# ------------------------------------------------------------------ tiny-std's own Read implementors (overrides of provided helpers)
+
+SYSFS = ["/sys/kernel/fscaps", "/sys/kernel/profiling", "/sys/devices/system/cpu/possible", "/sys/devices/system/cpu/online",
+         "/sys/kernel/mm/transparent_hugepage/enabled", "/sys/class/net/lo/mtu", "/sys/kernel/kexec_loaded"]
+PROCFS = ["/proc/sys/kernel/ostype", "/proc/sys/kernel/osrelease", "/proc/version", "/proc/filesystems", "/proc/self/cmdline"]
+IMPL_SIZES = [0, 1, 31, 32, 33, 4095, 4096, 4097, 1048576]
+OVERRIDE_RE = re.compile(r"\bfn\s+(read_to_end|read_to_string|read_exact|write_all|write_fmt)\b")
+IMPL_RE = re.compile(r"^impl(?:<[^>]*>)?\s+(?:crate::)?(?:io::)?(Read|Write)\s+for\s+([^\{]+?)\s*\{", re.M)
+
+
+def scan_overrides(root):
+    """provided helpers of io::Read / io::Write that an implementor in tiny-std/src defines itself:
+    [(file, implementor type, trait, method)], and the list of implementors"""
+    import os
+    impls, over = [], []
+    for dp, _, fns in os.walk(root):
+        for fn in sorted(fns):
+            if not fn.endswith(".rs"):
+                continue
+            src = open(os.path.join(dp, fn), errors="replace").read()
+            rel = os.path.relpath(os.path.join(dp, fn), root)
+            for m in IMPL_RE.finditer(src):
+                # the block: up to the matching closing brace
+                depth, i = 1, m.end()
+                while i < len(src) and depth:
+                    depth += {"{": 1, "}": -1}.get(src[i], 0)
+                    i += 1
+                body = src[m.end():i]
+                ty = m.group(2).strip()
+                if rel == "io.rs" and (ty.startswith("&") or "Adapter" in ty):
+                    continue
+                impls.append("%s: %s for %s" % (rel, m.group(1), ty))
+                for mm in OVERRIDE_RE.finditer(body):
+                    over.append({"file": rel, "type": ty, "trait": m.group(1), "method": mm.group(1)})
+    return sorted(impls), over
+
+
+def gen_impl_cases(ctx):
+    import os
+    r = ctx.rng
+    cases, notes = [], []
+    pres = ["-", "6162", H(b"x" * 40)]
+    for size in IMPL_SIZES:
+        for off in sorted(set([0, 1, min(size, 31), size // 2, max(0, size - 1), size, size + 5])):
+            for op in ("rte", "rts"):
+                cases.append("impl file %s tmp:%d:%d %s %d" % (op, size, r.below(89), r.choice(pres), off))
+        for k in sorted(set([0, 1, size, size + 1, max(0, size - 1)])):
+            if k <= 4200:
+                cases.append("impl file rex:%d tmp:%d:%d - %d" % (k, size, r.below(89), r.choice([0, 0, 1])))
+        if size:
+            cases.append("impl file rts bad:%d 6162 0" % size)
+            cases.append("impl file rte bad:%d 6162 0" % size)
+            for new in sorted(set([0, 1, size // 2, max(0, size - 1)])):
+                for off in (0, min(3, size)):
+                    cases.append("impl file rte trunc:%d:%d %s %d" % (size, new, r.choice(pres), off))
+            for extra in (1, 33, 5000):
+                cases.append("impl file rte ext:%d:%d %s %d" % (size, extra, r.choice(pres), r.choice([0, size, size // 2])))
+                cases.append("impl file rts ext:%d:%d - 0" % (size, extra))
+    sysf = [f for f in SYSFS if os.access(f, os.R_OK)][:3]
+    if not sysf:
+        notes.append("no readable sysfs attribute found (/sys absent?): files whose st_size exceeds their content are not exercised")
+    for f in sysf + [f for f in PROCFS if os.access(f, os.R_OK)]:
+        for op in ("rte", "rts"):
+            for pre in ("-", "6162"):
+                for off in (0, 1):
+                    cases.append("impl file %s path:%s %s %d" % (op, f, pre, off))
+        cases.append("impl file rex:1 path:%s - 0" % f)
+        cases.append("impl file rex:5000 path:%s - 0" % f)
+    for sizes in ["1", "3,40,1000", "32,32,32", "4096,1", "1,1,1,1,1", "70000,5", "31,33"]:
+        for op in ("rte", "rts"):
+            cases.append("impl ustream %s pipe:%s %s 0" % (op, sizes, r.choice(["-", "6162"])))
+    return cases, sysf, notes
+
+
+IMPL_OUT_RE = re.compile(r"^T (\S+) (\d+) (\S+) S (\S+) (\d+) (\S+) diff=(\S+)$")
+
+
+def judge_impl(case, out):
+    if out.startswith("skip "):
+        return None
+    m = IMPL_OUT_RE.match(out)
+    if not m:
+        return "unexpected output: " + out[:80]
+    tr, tl, th, sr, sl, sh, d = m.groups()
+    w = case.split()
+    who = "tiny-std %s::%s on %s" % (w[1], w[2], w[3])
+    if tr == "panic":
+        return "implementor panicked: %s" % who
+    if tr != sr:
+        return "implementor result differs from std: %s returned %s, std %s on the same object (buffer %s bytes vs %s)" % (who, tr, sr, tl, sl)
+    if (tl, th) != (sl, sh):
+        return "implementor bytes differ from std: %s left %s bytes in the buffer, std %s (first difference at offset %s)" % (who, tl, sl, d)
+    return None
+
+
 # ------------------------------------------------------------------ run
 
 def run(ctx):
@@ -778,6 +874,7 @@ def run(ctx):
         "write_fmt: core::fmt::write turns the arguments into a sequence of write_str calls and stops at the first error (observed through a Display impl issuing one write_str per item)",
         "print macros: the write(2) system call on fd 1/2 is scripted through the sc-shim (returns k <= count, 0, -EINTR or -errno; never more than count); the bytes the scripted kernel took, in order, and the number of answers consumed are compared with what a rendering of the message computed by the check itself and the answers determine (message cut exactly at the first error / EINTR / 0 answered to a non-empty buffer, nothing of it written afterwards, the newline of the ln forms then attempted with one write)",
         "print macros: which write_str pieces core::fmt::write issues for a format string (one per non-empty literal segment up to 65535 bytes, literal-only strings as a single piece, `-` and the digits of an i64 separately) is toolchain behaviour, observed by the correspondence, not proved; the file:line header of dbg! is taken from the run",
+        "implementors: the theorems are about the provided (default) helpers over any reader/writer script; what a tiny-std implementor of io::Read/io::Write overrides is outside the model and covered only by the implementors stream (tiny_std::fs::File on temp files of sizes around 0/31/32/33/4095/4096/4097/1 MiB with start offsets and pre-filled buffers, files truncated/extended through another descriptor after open, sysfs attributes whose st_size exceeds their content, procfs files with st_size 0, non-UTF-8 content; tiny_std::net::UnixStream fed in pieces by a thread), judged by std::fs::File doing the same on a twin descriptor / by the known content; coverage.overrides lists every provided helper an implementor defines itself (scan of tiny-std/src), an override on a type the stream does not drive is reported; AnonPipe (only obtainable from a spawned child) and TcpStream are not driven (their read/write are single system calls, no override)",
         "print macros: that print! locks __STDOUT_LOCK / eprint! __STDERR_LOCK around the whole message is not part of this check (single-threaded harness)",
     ]
     ok = C.lean_prove(ctx, "TinyVerif.Props.C15", drivers=["drv_c15"])
@@ -859,6 +956,48 @@ def run(ctx):
             ctx.hist("outcomes", w[0] + ":" + kind)
         for c, a in list(zip(cases, di))[:3]:
             ctx.sample({"case": c, "implementation": a})
+    # ---- tiny-std's own implementors of Read (and what they override of the provided helpers): outside the model
+    import os
+    impls, overrides = scan_overrides("/repo/tiny-std/src")
+    ctx.extra["implementors"] = impls
+    ctx.extra["overrides"] = overrides
+    icases, sysf, inotes = gen_impl_cases(ctx)
+    _, iout, ierr = C.run_filter([exe], icases)
+    st = ctx.extra.setdefault("streams", {})
+    st["implementors"] = {"cases": len(icases), "spec_failures": 0, "skipped": 0, "sysfs": sysf, "notes": inotes}
+    exercised = set()
+    if len(iout) != len(icases):
+        ctx.violation({"stream": "implementors", "kind": "impl-crash"}, {"case": icases[len(iout)] if len(iout) < len(icases) else None,
+                                                                          "stderr_tail": ierr.splitlines()[-5:]})
+    else:
+        ctx.evaluations += len(icases)
+        for c, o in zip(icases, iout):
+            w = c.split()
+            if o.startswith("skip ") or o == "bad-op":
+                st["implementors"]["skipped"] += 1
+                ctx.hist("implementors_skipped", w[3].split(":")[0] + ":" + o)
+                if o == "bad-op":
+                    ctx.violation({"stream": "implementors", "kind": "harness-rejects-case"}, {"case": c}, no_input=True)
+                continue
+            exercised.add(w[1])
+            ctx.count(("impl", w[1], w[2].split(":")[0], w[3].split(":")[0], w[4] != "-", w[5] != "0"))
+            why = judge_impl(c, o)
+            if why:
+                st["implementors"]["spec_failures"] += 1
+                ctx.violation({"op": "impl", "kind": why.split(":")[0]},
+                              {"stream": "implementors", "case": c, "implementation_vs_std": o, "why": why,
+                               "how_to_replay": "echo '%s' | %s" % (c, exe)})
+        for c, o in list(zip(icases, iout))[:2]:
+            ctx.sample({"case": c, "tiny_std_vs_std": o})
+    for n_ in inotes:
+        ctx.log("NOTE: property=C15 " + n_)
+    TYPE_OF = {"File": "file", "UnixStream": "ustream"}
+    for ov in overrides:
+        t = TYPE_OF.get(ov["type"])
+        if t is None or t not in exercised or (ov["type"] == "File" and not sysf):
+            ctx.violation({"stream": "implementors", "kind": "override of a provided helper not exercised", "type": ov["type"], "method": ov["method"]},
+                          {"override": ov, "why": "an implementor defines a provided io::Read/io::Write helper itself; the theorems are about the default helpers only and the implementors stream does not drive this type (or could not reach a file whose st_size exceeds its content)"},
+                          no_input=True)
     ctx.extra["call_log_drift"] = {"lines_differing": drift, "example": drift_example}
     if drift:
         ctx.log("NOTE: property=C15 the sizes offered to the reader or writer / bytes carried over differ from the model on %d cases (not part of the property; results agree unless a VIOLATION is printed): %s"
